@@ -1,4 +1,179 @@
-import FiddleModel.Model.ArgStore
+/-
+C14 — tags select exactly the tagged arguments and survive every transformation.
+
+Two layers of the model:
+  * graph layer (`Model/Select.lean`): `Heap.setTagged` (= `set_tagged` = tag selection
+    `.replace`), `listTags`, `taggedKeys` over every heap and every tag hierarchy `sub`;
+  * ArgStore layer (`Model/ArgStore.lean`): `add_tag`, `remove_tag`, `clear_tags` on one
+    Buildable, with the history log.
+The survival of tags under copy / cast / serialization / diff application and the expansion and
+build of `TaggedValue` are carried by the correspondence check (they go through C07/C09/C10's
+machinery in the code); the theorems here are about selection and tag edits.
+-/
+import FiddleModel.Lemmas.SelectL
+import FiddleModel.Lemmas.History
+
 namespace Fiddle
-theorem C14_placeholder : True := trivial
+
+/-- The arguments selected by tag `T`: those whose tag set contains `T` or a subclass of it. -/
+theorem C14_tagged_keys (sub : Nat → Nat → Bool) (T : Nat) (o : GObj) (key : Key) :
+    key ∈ taggedKeys sub T o ↔ ∃ ts, (key, ts) ∈ o.tags ∧ ∃ t ∈ ts, sub t T = true := by
+  simp only [taggedKeys, List.mem_map, List.mem_filter, List.any_eq_true]
+  constructor
+  · rintro ⟨⟨k, ts⟩, ⟨hm, t, ht, hs⟩, rfl⟩; exact ⟨ts, hm, t, ht, hs⟩
+  · rintro ⟨ts, hm, t, ht, hs⟩; exact ⟨(key, ts), ⟨hm, t, ht, hs⟩, rfl⟩
+
+/-- After `set_tagged(root, tag=T, value=v)` every selected argument of every reachable
+    Buildable holds `v` ... -/
+theorem C14_set_tagged_hits (h : Heap) (root : GVal) (sub : Nat → Nat → Bool) (T : Nat) (v : GVal)
+    (k : Nat) (hk : k ∈ reachableIds h root) (o : GObj) (ho : h[k]? = some o) (hc : o.kind = .cfg)
+    (key : Key) (hkey : key ∈ taggedKeys sub T o) :
+    ∃ o', (h.setTagged root sub T v)[k]? = some o' ∧ lk o'.children (pelemOfKey key) = some v := by
+  refine ⟨_, by rw [setTagged_get, ho]; rfl, ?_⟩
+  have hin : (reachableIds h root).contains k = true := by simpa using hk
+  simp only [hin, hc, beq_self_eq_true, Bool.and_self, if_true]
+  have := lookup_upsertAll_const ((taggedKeys sub T o).map pelemOfKey) v o.children
+    (pelemOfKey key) (List.mem_map_of_mem hkey)
+  rw [List.map_map] at this
+  exact this
+
+/-- ... no other argument of it has changed ... -/
+theorem C14_set_tagged_other_args (h : Heap) (root : GVal) (sub : Nat → Nat → Bool) (T : Nat)
+    (v : GVal) (k : Nat) (o : GObj) (ho : h[k]? = some o) (q : PElem)
+    (hq : ∀ key ∈ taggedKeys sub T o, pelemOfKey key ≠ q) :
+    ∃ o', (h.setTagged root sub T v)[k]? = some o' ∧ lk o'.children q = lk o.children q := by
+  refine ⟨_, by rw [setTagged_get, ho]; rfl, ?_⟩
+  dsimp only
+  split
+  · apply lookup_upsertAll_other
+    intro kv hkv
+    simp only [List.mem_map] at hkv
+    obtain ⟨key, hkey, rfl⟩ := hkv
+    exact hq key hkey
+  · rfl
+
+/-- ... no tag, callable, type or signature has changed anywhere ... -/
+theorem C14_set_tagged_keeps_tags (h : Heap) (root : GVal) (sub : Nat → Nat → Bool) (T : Nat)
+    (v : GVal) (k : Nat) (o : GObj) (ho : h[k]? = some o) :
+    ∃ o', (h.setTagged root sub T v)[k]? = some o' ∧ o'.tags = o.tags ∧ o'.ty = o.ty ∧
+      o'.kind = o.kind ∧ o'.bk = o.bk ∧ o'.sig = o.sig ∧ o'.defaults = o.defaults := by
+  refine ⟨_, by rw [setTagged_get, ho]; rfl, ?_⟩
+  dsimp only
+  split <;> exact ⟨rfl, rfl, rfl, rfl, rfl, rfl⟩
+
+/-- ... and objects that are not reachable Buildables are untouched. -/
+theorem C14_set_tagged_frame (h : Heap) (root : GVal) (sub : Nat → Nat → Bool) (T : Nat) (v : GVal)
+    (k : Nat) (hk : k ∉ reachableIds h root ∨ ∀ o, h[k]? = some o → o.kind ≠ .cfg) :
+    (h.setTagged root sub T v)[k]? = h[k]? := by
+  rw [setTagged_get]
+  cases ho : h[k]? with
+  | none => rfl
+  | some o =>
+    rcases hk with hk | hk
+    · simp [hk]
+    · have := hk o ho
+      simp [this]
+
+/-- `list_tags` is exactly the union of the tag sets over the reachable Buildables. -/
+theorem C14_list_tags_exact (h : Heap) (root : GVal) (t : Nat) :
+    t ∈ listTags h root ↔ ∃ i ∈ reachableIds h root, ∃ o, h[i]? = some o ∧ o.kind = .cfg ∧
+      ∃ kt ∈ o.tags, t ∈ kt.2 := by
+  simp only [listTags, List.mem_eraseDups, List.mem_flatMap]
+  constructor
+  · rintro ⟨i, hi, ht⟩
+    cases ho : h[i]? with
+    | none => simp [ho] at ht
+    | some o =>
+      simp only [ho] at ht
+      by_cases hc : o.kind = .cfg
+      · simp only [hc, beq_self_eq_true, if_true, List.mem_flatMap] at ht
+        exact ⟨i, hi, o, ho, hc, ht⟩
+      · simp [hc] at ht
+  · rintro ⟨i, hi, o, ho, hc, kt, hkt, ht⟩
+    refine ⟨i, hi, ?_⟩
+    simp only [ho, hc, beq_self_eq_true, if_true, List.mem_flatMap]
+    exact ⟨kt, hkt, ht⟩
+
+/-- ... without duplicates. -/
+theorem C14_list_tags_nodup (h : Heap) (root : GVal) : (listTags h root).Nodup := by
+  unfold listTags
+  exact nodup_eraseDups _
+
+/-! ## Tag edits on one Buildable -/
+
+/-- `add_tag` adds the tag to that argument, leaves the arguments and every other argument's
+    tags alone. -/
+theorem C14_add_tag (s : Sig) (c c' : Cfg) (k : Key) (t : Nat) (h : c.addTag s k t = .ok c') :
+    ∃ key, Cfg.tagKey s c k = .ok key ∧ t ∈ c'.tagsOf key ∧ c'.args = c.args ∧
+      (∀ u ∈ c.tagsOf key, u ∈ c'.tagsOf key) ∧
+      ∀ k', key ≠ k' → c'.tags.get? k' = c.tags.get? k' := by
+  unfold Cfg.addTag at h
+  split at h
+  · cases h
+  · rename_i key hk
+    cases h
+    refine ⟨key, hk, ?_, ?_, ?_, ?_⟩
+    · simp only [Cfg.tagsOf, log_tags, Dict.get?_set_same, Option.getD_some]
+      unfold tagInsert; split
+      · rename_i hc; simpa using hc
+      · simp
+    · simp [log_args]
+    · intro u hu
+      simp only [Cfg.tagsOf, log_tags, Dict.get?_set_same, Option.getD_some]
+      unfold tagInsert; split
+      · exact hu
+      · exact List.mem_append_left _ hu
+    · intro k' hne
+      simp only [log_tags]
+      exact Dict.get?_set_other _ _ _ _ hne
+
+/-- `remove_tag` removes exactly that tag; removing a tag that is not there is an error. -/
+theorem C14_remove_tag (s : Sig) (c c' : Cfg) (k : Key) (t : Nat)
+    (h : c.removeTag s k t = .ok c') :
+    ∃ key, Cfg.tagKey s c k = .ok key ∧ t ∈ c.tagsOf key ∧ t ∉ c'.tagsOf key ∧ c'.args = c.args ∧
+      (∀ u ∈ c.tagsOf key, u ≠ t → u ∈ c'.tagsOf key) ∧
+      ∀ k', key ≠ k' → c'.tags.get? k' = c.tags.get? k' := by
+  unfold Cfg.removeTag at h
+  split at h
+  · cases h
+  · rename_i key hk
+    split at h
+    · cases h
+    · rename_i hc
+      cases h
+      refine ⟨key, hk, by simpa using hc, ?_, by simp [log_args], ?_, ?_⟩
+      · simp [Cfg.tagsOf, log_tags, Dict.get?_set_same]
+      · intro u hu hne
+        simp only [Cfg.tagsOf, log_tags, Dict.get?_set_same, Option.getD_some, List.mem_filter]
+        exact ⟨hu, by simpa using hne⟩
+      · intro k' hne
+        simp only [log_tags]
+        exact Dict.get?_set_other _ _ _ _ hne
+
+/-- `clear_tags` empties that argument's tag set and nothing else. -/
+theorem C14_clear_tags (s : Sig) (c c' : Cfg) (k : Key) (h : c.clearTags s k = .ok c') :
+    ∃ key, Cfg.tagKey s c k = .ok key ∧ c'.tagsOf key = [] ∧ c'.args = c.args ∧
+      ∀ k', key ≠ k' → c'.tags.get? k' = c.tags.get? k' := by
+  unfold Cfg.clearTags at h
+  split at h
+  · cases h
+  · rename_i key hk
+    cases h
+    refine ⟨key, hk, by simp [Cfg.tagsOf, log_tags, Dict.get?_set_same], by simp [log_args], ?_⟩
+    intro k' hne
+    simp only [log_tags]
+    exact Dict.get?_set_other _ _ _ _ hne
+
+/-! ## Non-vacuity -/
+
+private def g : Heap :=
+  [ { kind := .cfg, ty := "f", bk := "Config", children := [(.attr "x", .atom "1"), (.attr "y", .atom "2")],
+      tags := [(.name "x", [3]), (.name "z", [1])] },
+    { kind := .cfg, ty := "g", bk := "Config", children := [(.attr "a", .ref 0)] } ]
+
+/-- tag 3 is a subclass of tag 1: selecting by 1 hits `x` (tagged 3) and the unset `z` -/
+example : ((g.setTagged (.ref 1) (fun a b => a == b || (a == 3 && b == 1)) 1 (.atom "V"))[0]?).map
+      (·.children) = some [(.attr "x", .atom "V"), (.attr "y", .atom "2"), (.attr "z", .atom "V")] ∧
+    listTags g (.ref 1) = [3, 1] := by decide
+
 end Fiddle
